@@ -49,13 +49,14 @@ type Finding struct {
 }
 
 type nativeResult struct {
-	Record   string   `json:"record"`
-	Func     string   `json:"func"`
-	Failed   []string `json:"failed"`
-	Observed []string `json:"observed"`
-	Rejected string   `json:"rejected"`
-	Panic    string   `json:"panic"`
-	Crashed  string   `json:"crashed,omitempty"`
+	Record      string   `json:"record"`
+	Func        string   `json:"func"`
+	Failed      []string `json:"failed"`
+	KnownFailed []string `json:"known_failed"`
+	Observed    []string `json:"observed"`
+	Rejected    string   `json:"rejected"`
+	Panic       string   `json:"panic"`
+	Crashed     string   `json:"crashed,omitempty"`
 }
 
 var (
@@ -230,21 +231,21 @@ func runCheck(id, tier, only string, workers int, verbose bool) int {
 	os.MkdirAll(replayDir, 0o755)
 
 	var (
-		inconclusive  []string
-		violLines     []string
-		knownLines    []string
-		knownSeen     = map[string]int{}
-		totalStates   int64
-		totalTrans    int64
-		totalPaths    int
-		validated     int
-		samples       []interface{}
-		funcs         = map[string]int64{}
-		solver        interp.SolverStats
-		perHarness    []map[string]interface{}
+		inconclusive   []string
+		violLines      []string
+		knownLines     []string
+		knownSeen      = map[string]int{}
+		totalStates    int64
+		totalTrans     int64
+		totalPaths     int
+		validated      int
+		samples        []interface{}
+		funcs          = map[string]int64{}
+		solver         interp.SolverStats
+		perHarness     []map[string]interface{}
 		crossQ, crossD int
-		assertsTotal  int64
-		vacuous       []string
+		assertsTotal   int64
+		vacuous        []string
 	)
 	natives := map[string]*nativeRunner{}
 	getRunner := func(pkg string) *nativeRunner {
@@ -349,6 +350,9 @@ func runCheck(id, tier, only string, workers int, verbose bool) int {
 						// (a later rejection for draws the aborted symbolic path never made is expected)
 						reproduced = true
 						detail = "native assertion failed: " + strings.Join(r.Failed, "; ")
+					case len(v.Known) > 0 && len(r.KnownFailed) > 0:
+						reproduced = true
+						detail = "native assertion failed (known-finding class): " + strings.Join(r.KnownFailed, "; ")
 					case r.Rejected != "":
 						detail = "native run rejected the model: " + r.Rejected
 					default:
@@ -474,7 +478,9 @@ func runCheck(id, tier, only string, workers int, verbose bool) int {
 			fl = append(fl, fe{strings.ReplaceAll(f, module+"/", ""), n})
 		}
 	}
-	sort.Slice(fl, func(a, b int) bool { return fl[a].Calls > fl[b].Calls || fl[a].Calls == fl[b].Calls && fl[a].Name < fl[b].Name })
+	sort.Slice(fl, func(a, b int) bool {
+		return fl[a].Calls > fl[b].Calls || fl[a].Calls == fl[b].Calls && fl[a].Name < fl[b].Name
+	})
 	if len(samples) == 0 {
 		samples = append(samples, map[string]interface{}{"note": "no completed path"})
 	}
@@ -622,6 +628,7 @@ func newNativeRunner(pkg string, files map[string]string, scratch string) *nativ
 				pan := h.Run(f)
 				h.Cleanup()
 				out["failed"] = h.Failed
+				out["known_failed"] = h.KnownFailed
 				out["observed"] = h.Observed
 				out["rejected"] = h.Rejected
 				if pan != nil {
